@@ -181,16 +181,18 @@ theorem select_registered (r : Reg) (p : Pkt) (l : Lid) (v : Via) (b : Bool)
     · rename_i l' hs; simp at h; obtain ⟨rfl, _, _⟩ := h
       exact Or.inr (Or.inr (Or.inl (stageMid_mem r p _ hs)))
     · split at h
-      · rename_i l' hs; simp at h; obtain ⟨rfl, _, _⟩ := h
-        exact Or.inl ⟨_, lookup_mem _ _ _ hs⟩
+      · simp at h
       · split at h
         · rename_i l' hs; simp at h; obtain ⟨rfl, _, _⟩ := h
-          obtain ⟨rt, hrt, hl⟩ := uniqueLoop_mem _ _ hs
-          exact Or.inr (Or.inr (Or.inr ⟨rt, (List.mem_filter.1 hrt).1, hl⟩))
+          exact Or.inl ⟨_, lookup_mem _ _ _ hs⟩
         · split at h
           · rename_i l' hs; simp at h; obtain ⟨rfl, _, _⟩ := h
             obtain ⟨rt, hrt, hl⟩ := uniqueLoop_mem _ _ hs
             exact Or.inr (Or.inr (Or.inr ⟨rt, (List.mem_filter.1 hrt).1, hl⟩))
-          · simp at h
+          · split at h
+            · rename_i l' hs; simp at h; obtain ⟨rfl, _, _⟩ := h
+              obtain ⟨rt, hrt, hl⟩ := uniqueLoop_mem _ _ hs
+              exact Or.inr (Or.inr (Or.inr ⟨rt, (List.mem_filter.1 hrt).1, hl⟩))
+            · simp at h
 
 end RtcModel.Demux
